@@ -24,7 +24,7 @@ import os
 import re
 import sys
 
-UNITS = ["GenSolver", "GenHosvd", "GenCpAls", "GenTuckerAls", "GenCpAprMu"]
+UNITS = ["GenSolver", "GenHosvd", "GenCpAls", "GenTuckerAls", "GenCpAprMu", "GenSampler", "GenHosvdFull", "GenCpAlsPre"]
 
 
 class Abort(Exception):
@@ -53,6 +53,11 @@ def name_pos(txt, v):
 
 def cname(py):
     return "v_" + py.replace(".", "_")
+
+
+def ctype(t):
+    """declared type -> Gallina text (`dyn C` = dynamically typed value None | int | C object | anything else)"""
+    return "sk_dyn " + t[4:] if t.startswith("dyn ") else t
 
 
 W = "$w"          # pseudo-variable: the world threaded through effectful kernels
@@ -87,6 +92,11 @@ class Skel:
         self.mutable = set(spec.get("mutable", []))
         self.attr_set = spec.get("attr_set", {})
         self.colsel = spec.get("colsel", {})
+        self.enums = spec.get("_enums", {})              # enum class -> member names (read from the source by render_unit)
+        self.dataclasses = spec.get("_dataclasses", {})  # dataclass -> field names in source order (all fields are ints)
+        self.callee_names = set(spec.get("callee_names", []))
+        self.ceildiv = spec.get("ceildiv")               # {"coq", "type"}: ceil(A / B) on ints
+        self.fdiv = spec.get("fdiv")                     # {"coq", "type", "ret"}: A / B on ints (float quotient)
         self.func_node = func_node
         self.region = region
         self.loops = []
@@ -101,6 +111,15 @@ class Skel:
     def tmp(self):
         self.ntmp += 1
         return f"t_{self.ntmp}"
+
+    def guard_tmp(self, g, opt):
+        """temporary bound to the value of the option expression `opt` (one guard per statement for equal expressions)"""
+        for pat, o in g.pre:
+            if o == opt and pat.startswith("t_"):
+                return pat
+        t = self.tmp()
+        g.pre.append((t, opt))
+        return t
 
     def vtype(self, name):
         if name == W:
@@ -196,20 +215,22 @@ class Skel:
                     add(n)
             elif isinstance(s, ast.Expr):
                 txt = ast.unparse(s)
-                if self.is_append(s):
-                    add(self.varname(s.value.func.value))
-                    continue
                 if txt in self.opaque_stmt:
                     for n in self.opaque_stmt[txt]["targets"]:
                         add(n)
                     if self.opaque_stmt[txt].get("effect"):
                         add(W)
                     continue
+                if self.is_append(s):
+                    add(self.varname(s.value.func.value))
+                    continue
                 k = self.kernel_of(s.value) if isinstance(s.value, ast.Call) else None
                 if k is None:
                     raise Abort(f"unsupported expression statement `{ast.unparse(s)[:80]}`")
                 if k.get("effect"):
                     add(W)
+                for n in k.get("targets", []) if k.get("generated") else []:
+                    add(n)
                 if k.get("mutates"):
                     recv = self.varname(s.value.func.value)
                     if recv is None:
@@ -256,7 +277,8 @@ class Skel:
                     if isinstance(e.func, ast.Attribute) and (k.get("recv") or k.get("mutates")):
                         ex(e.func.value)
                     for a in e.args:
-                        ex(a)
+                        if not (isinstance(a, ast.Name) and a.id in self.callee_names):
+                            ex(a)
                     for kw in e.keywords:
                         ex(kw.value)
                     return
@@ -338,6 +360,9 @@ class Skel:
         d = dotted(call.func)
         if d is None:
             return None
+        fns = [a.id for a in call.args if isinstance(a, ast.Name) and a.id in self.callee_names]
+        if fns:
+            d += "[" + ",".join(fns) + "]"
         if call.keywords:
             if any(kw.arg is None for kw in call.keywords):
                 return None
@@ -363,6 +388,8 @@ class Skel:
         for a in call.args:
             if isinstance(a, ast.Starred):
                 raise Abort("starred argument")
+            if isinstance(a, ast.Name) and a.id in self.callee_names:
+                continue                      # part of the kernel's key
             args.append(self.atom(self.expr(a, env, g)[0]))
         for kw in sorted(call.keywords, key=lambda q: q.arg):
             args.append(self.atom(self.expr(kw.value, env, g)[0]))
@@ -385,6 +412,52 @@ class Skel:
             g.newbound.add(name)
         return cname(name) if name != W else "v_w"
 
+    # ---- integers (Z), enums, dataclasses, dynamically typed values (units with "zarith") ----
+    @staticmethod
+    def const_int(e):
+        """value of an integer literal or of `c1 ** c2` of literals, else None"""
+        if isinstance(e, ast.Constant) and isinstance(e.value, int) and not isinstance(e.value, bool):
+            return e.value
+        if isinstance(e, ast.BinOp) and isinstance(e.op, ast.Pow):
+            a, b = Skel.const_int(e.left), Skel.const_int(e.right)
+            if a is not None and b is not None and 0 <= b <= 64:
+                return a ** b
+        return None
+
+    def exprs_num(self, nodes, env, g, hint=None):
+        """evaluate numeric operands; integer literals take the type (nat / Z) of the other operands; dynamic values used as
+        numbers are read through `sk_int` (TypeError = None)"""
+        res = [None] * len(nodes)
+        ty = None
+        for i, x in enumerate(nodes):
+            if self.const_int(x) is None:
+                a, ta = self.expr(x, env, g)
+                if (ta or "").startswith("dyn "):
+                    a, ta = self.guard_tmp(g, f"sk_int {self.atom(a)}"), "Z"
+                res[i] = (a, ta)
+                if ta in ("nat", "Z"):
+                    ty = ty or ta
+        if ty is None:
+            ty = hint if hint in ("nat", "Z") else "nat"
+        for i, x in enumerate(nodes):
+            if res[i] is None:
+                v = self.const_int(x)
+                if v < 0:
+                    raise Abort(f"negative constant `{ast.unparse(x)}`")
+                res[i] = (f"{v}%Z" if ty == "Z" else str(v), ty)
+        return res
+
+    def dyn_wrap(self, target_type, valtxt, vt):
+        """value stored into a dynamically typed variable (`dyn C`)"""
+        c = target_type[4:]
+        if vt == target_type:
+            return valtxt
+        if vt == "Z":
+            return f"SkInt {self.atom(valtxt)}"
+        if vt == c:
+            return f"SkObj {self.atom(valtxt)}"
+        raise Abort(f"value of type {vt} stored into a variable of type {target_type}")
+
     def expr(self, e, env, g, hint=None):
         """-> (gallina text, type or None)"""
         txt = ast.unparse(e)
@@ -405,6 +478,20 @@ class Skel:
         v = self.varname(e) if isinstance(e, (ast.Name, ast.Attribute)) else None
         if v is not None:
             return self.read_var(v, env, g), self.vtype(v)
+        if isinstance(e, ast.Attribute) and isinstance(e.value, ast.Name) and e.value.id in self.enums:
+            if e.attr not in self.enums[e.value.id]:
+                raise Abort(f"`{txt}` is not a member of the enum")
+            return f"{e.value.id}_{e.attr}", e.value.id
+        if isinstance(e, ast.Attribute):
+            a, ta = self.expr(e.value, env, g)
+            c = ta[4:] if (ta or "").startswith("dyn ") else ta
+            if c in self.dataclasses and e.attr in self.dataclasses[c]:
+                if ta != c:              # attribute of a dynamically typed value: AttributeError = None
+                    a = self.guard_tmp(g, f"sk_obj {self.atom(a)}")
+                return f"{c}_{e.attr} {self.atom(a)}", "Z"
+            raise Abort(f"unsupported attribute `{txt}` of type {ta}")
+        if self.const_int(e) is not None and hint == "Z":
+            return f"{self.const_int(e)}%Z", "Z"
         if isinstance(e, ast.Constant):
             if e.value is True:
                 return "true", "bool"
@@ -417,6 +504,19 @@ class Skel:
             if isinstance(e.value, int) and e.value >= 0:
                 return str(e.value), "nat"
             raise Abort(f"constant `{txt}`")
+        if isinstance(e, ast.BinOp) and self.spec.get("zarith") and isinstance(e.op, (ast.Add, ast.Sub, ast.Mult, ast.Div)):
+            (a, ta), (b, tb) = self.exprs_num([e.left, e.right], env, g, hint)
+            if ta == "Z" and tb == "Z":
+                if isinstance(e.op, ast.Div):
+                    if not self.fdiv:
+                        raise Abort(f"float quotient `{txt}` without a declared kernel")
+                    self.use_kernel(self.fdiv["coq"], self.fdiv["type"])
+                    t = self.tmp()
+                    g.pre.append((t, f"sk_fdiv {self.fdiv['coq']} {self.atom(a)} {self.atom(b)}"))      # ZeroDivisionError = None
+                    return t, self.fdiv["ret"]
+                op = {ast.Add: "+", ast.Sub: "-", ast.Mult: "*"}[type(e.op)]
+                return f"({self.atom(a)} {op} {self.atom(b)})%Z", "Z"
+            raise Abort(f"binary operation `{txt}` on ({ta}, {tb})")
         if isinstance(e, ast.BinOp):
             a, ta = self.expr(e.left, env, g)
             b, tb = self.expr(e.right, env, g)
@@ -449,13 +549,39 @@ class Skel:
             if isinstance(op, (ast.Is, ast.IsNot)):
                 if not (isinstance(e.comparators[0], ast.Constant) and e.comparators[0].value is None):
                     raise Abort(f"`is` comparison `{txt}`")
+                lv = self.varname(e.left)
+                if lv is not None and lv in self.vars and self.vars[lv].startswith("dyn "):
+                    a = self.read_var(lv, env, g)
+                    return (f"sk_is_none {a}" if isinstance(op, ast.Is) else f"negb (sk_is_none {a})"), "bool"
                 raise Abort(f"`is None` outside the default-parameter idiom: `{txt}`")
-            a, ta = self.expr(e.left, env, g)
-            b, tb = self.expr(e.comparators[0], env, g)
+            if isinstance(op, (ast.In, ast.NotIn)) and isinstance(e.comparators[0], ast.Tuple):
+                a, ta = self.expr(e.left, env, g)
+                if ta not in self.enums:
+                    raise Abort(f"membership test `{txt}` on type {ta}")
+                parts = []
+                for m in e.comparators[0].elts:
+                    b, tb = self.expr(m, env, g)
+                    if tb != ta:
+                        raise Abort(f"membership test `{txt}`: member of type {tb}")
+                    parts.append(f"{ta}_eqb {self.atom(a)} {self.atom(b)}")
+                if not parts:
+                    raise Abort(f"membership test `{txt}` in an empty tuple")
+                r = " || ".join(parts)
+                return (r if isinstance(op, ast.In) else f"negb ({r})"), "bool"
+            if self.spec.get("zarith") and (self.const_int(e.left) is not None or self.const_int(e.comparators[0]) is not None):
+                (a, ta), (b, tb) = self.exprs_num([e.left, e.comparators[0]], env, g)
+            else:
+                a, ta = self.expr(e.left, env, g)
+                b, tb = self.expr(e.comparators[0], env, g)
             a, b = self.atom(a), self.atom(b)
             if ta != tb or ta is None:
                 raise Abort(f"comparison `{txt}` between ({ta}, {tb})")
-            if ta == "nat":
+            if ta in self.enums:
+                tab = {ast.Eq: f"{ta}_eqb {a} {b}", ast.NotEq: f"negb ({ta}_eqb {a} {b})"}
+            elif ta == "Z":
+                tab = {ast.Lt: f"({a} <? {b})%Z", ast.LtE: f"({a} <=? {b})%Z", ast.Gt: f"({b} <? {a})%Z", ast.GtE: f"({b} <=? {a})%Z",
+                       ast.Eq: f"({a} =? {b})%Z", ast.NotEq: f"negb ({a} =? {b})%Z"}
+            elif ta == "nat":
                 tab = {ast.Lt: f"{a} <? {b}", ast.LtE: f"{a} <=? {b}", ast.Gt: f"{b} <? {a}", ast.GtE: f"{b} <=? {a}",
                        ast.Eq: f"{a} =? {b}", ast.NotEq: f"negb ({a} =? {b})"}
             elif ta in self.ordered:
@@ -580,10 +706,51 @@ class Skel:
                 raise Abort(f"len of non-list `{txt}`")
             return f"length {self.atom(a)}", "nat"
         if d == "int" and len(e.args) == 1 and not e.keywords:
-            a, ta = self.expr(e.args[0], env, g)
-            if ta != "nat":
+            a, ta = self.expr(e.args[0], env, g, hint)
+            if ta not in ("nat", "Z"):
                 raise Abort(f"int() of non-int `{txt}`")
-            return a, "nat"
+            return a, ta
+        if d == "isinstance" and len(e.args) == 2 and not e.keywords:
+            lv = self.varname(e.args[0])
+            cls = dotted(e.args[1])
+            if lv is not None and lv in self.vars and self.vars[lv].startswith("dyn "):
+                a = self.read_var(lv, env, g)
+                if cls == "int":
+                    return f"sk_is_int {a}", "bool"
+                if cls == self.vars[lv][4:]:
+                    return f"sk_is_obj {a}", "bool"
+            raise Abort(f"unsupported isinstance test `{txt}`")
+        if d in self.dataclasses:
+            fields = self.dataclasses[d]
+            if e.args or sorted(kw.arg or "" for kw in e.keywords) != sorted(fields):
+                raise Abort(f"constructor `{txt}`: exactly the keyword arguments {fields} are supported")
+            byname = {kw.arg: kw.value for kw in e.keywords}
+            vals = self.exprs_num([byname[f] for f in fields], env, g, "Z")
+            if any(t != "Z" for _, t in vals):
+                raise Abort(f"constructor `{txt}`: non-integer field")
+            return " ".join([f"mk_{d}"] + [self.atom(a) for a, _ in vals]), d
+        if d == "ceil" and self.ceildiv and len(e.args) == 1 and not e.keywords and isinstance(e.args[0], ast.BinOp) \
+                and isinstance(e.args[0].op, ast.Div):
+            (a, ta), (b, tb) = self.exprs_num([e.args[0].left, e.args[0].right], env, g, "Z")
+            if ta != "Z" or tb != "Z":
+                raise Abort(f"ceil of a quotient of ({ta}, {tb}) in `{txt}`")
+            self.use_kernel(self.ceildiv["coq"], self.ceildiv["type"])
+            den = self.const_int(e.args[0].right)
+            if den is not None and den != 0:
+                return f"{self.ceildiv['coq']} {self.atom(a)} {self.atom(b)}", "Z"
+            t = self.tmp()
+            g.pre.append((t, f"sk_ceildiv {self.ceildiv['coq']} {self.atom(a)} {self.atom(b)}"))       # ZeroDivisionError = None
+            return t, "Z"
+        if d in ("min", "max") and len(e.args) >= 2 and not e.keywords and self.spec.get("zarith"):
+            vals = self.exprs_num(list(e.args), env, g, hint)
+            ts = set(t for _, t in vals)
+            if ts != {"Z"}:
+                raise Abort(f"`{txt}` on types {sorted(str(t) for t in ts)}")
+            f = "Z.min" if d == "min" else "Z.max"
+            acc = self.atom(vals[0][0])
+            for a, _ in vals[1:]:
+                acc = f"({f} {acc} {self.atom(a)})"
+            return acc, "Z"
         raise Abort(f"call of an undeclared function `{txt[:80]}`")
 
     # ------------------------------------------------------------------ statements
@@ -727,7 +894,9 @@ class Skel:
                 tv = self.varname(s.targets[0])
                 if tv is not None and tv not in self.drop_vars:
                     hint = self.vtype(tv)
-            valtxt, _ = self.expr(val, env, g, hint)
+            valtxt, vt_ = self.expr(val, env, g, hint[4:] if (hint or "").startswith("dyn ") else hint)
+            if (hint or "").startswith("dyn "):
+                valtxt = self.dyn_wrap(hint, valtxt, vt_)
             if (len(s.targets) > 1 or not self.varname(s.targets[0])) and not all(c.isalnum() or c == "_" for c in valtxt):
                 t = self.tmp()
                 lines.append(f"let {t} := {valtxt} in")
@@ -841,6 +1010,16 @@ class Skel:
         if k is None:
             raise Abort(f"call of an undeclared function `{txt[:80]}`")
         g = Guards()
+        if k.get("generated"):
+            if s.value.keywords:
+                raise Abort(f"keyword arguments in the call of a generated function `{txt[:80]}`")
+            args = self.kernel_args(s.value, k, env, g)
+            tg = k["targets"]
+            for n in tg:
+                self.vtype(n)
+            pat = cname(tg[0]) if len(tg) == 1 else "(" + ", ".join(cname(x) for x in tg) + ")"
+            body = cont(self.after(env, g, tg))
+            return self.guard(g, f"match {' '.join([k['generated']] + args)} with\n| None => None\n| Some {pat} =>\n{ind(body)}\nend")
         args = self.kernel_args(s.value, k, env, g)
         self.use_kernel(k["coq"], k["type"])
         if k.get("mutates"):
@@ -871,7 +1050,7 @@ class Skel:
                 parts.append(c)
             else:
                 st = env_b.get(n)
-                parts.append(f"Some {c}" if st == "bound" else (c if st == "maybe" else f"(@None {self.atom(self.vtype(n))})"))
+                parts.append(f"Some {c}" if st == "bound" else (c if st == "maybe" else f"(@None {self.atom(ctype(self.vtype(n)))})"))
         if not parts:
             return "tt"
         return parts[0] if len(parts) == 1 else "(" + ", ".join(parts) + ")"
@@ -897,6 +1076,17 @@ class Skel:
                 isinstance(t.comparators[0], ast.Constant) and t.comparators[0].value is None:
             x = self.varname(t.left)
             optp = dict(self.spec.get("option_params", {}))
+            if x in self.vars and self.vars[x].startswith("dyn "):
+                return self.ifplain(s, rest, env, ctx, k)
+            if x in optp and env.get(x) == "optparam" and not s.orelse and len(s.body) == 1 and isinstance(s.body[0], ast.If):
+                # if x is None: (if c: x = A else: x = B)   — the default itself is chosen by a test
+                g = Guards()
+                e1 = self.default_value(s.body, x, {k_: v_ for k_, v_ in env.items() if k_ != x}, g)
+                env_in = dict(env)
+                env_in[x] = "bound"
+                env2 = self.after(env_in, g)
+                body = f"let {cname(x)} := match {cname(x)} with None => {e1} | Some {cname(x)} => {cname(x)} end in\n" + self.block(rest, env2, ctx, k)
+                return self.guard(g, body)
             if x in optp and len(s.body) == 1 and isinstance(s.body[0], ast.Assign) and len(s.body[0].targets) == 1 \
                     and self.varname(s.body[0].targets[0]) == x and env.get(x) == "optparam" and \
                     (not s.orelse or (len(s.orelse) == 1 and isinstance(s.orelse[0], ast.Assign) and len(s.orelse[0].targets) == 1
@@ -909,13 +1099,49 @@ class Skel:
                 env2 = self.after(env_in, g)
                 body = f"let {cname(x)} := match {cname(x)} with None => {e1} | Some {cname(x)} => {e2} end in\n" + self.block(rest, env2, ctx, k)
                 return self.guard(g, body)
+            if x in optp and env.get(x) == "optparam" and self.spec.get("join_raise") and x in self.assigned(s.body):
+                return self.ifplain(s, rest, env, ctx, k, optvar=x)
             raise Abort(f"`is None` test outside the default-parameter idiom: `{ast.unparse(t)}`")
+        return self.ifplain(s, rest, env, ctx, k)
+
+    def has_jump(self, stmts):
+        """break / return somewhere in the (non-dropped) statements — `raise` / `assert` are not jumps: they end in None"""
+        for s in stmts:
+            if self.droppable(s):
+                continue
+            if isinstance(s, (ast.Break, ast.Return)):
+                return True
+            if isinstance(s, ast.If) and (self.has_jump(s.body) or self.has_jump(s.orelse)):
+                return True
+        return False
+
+    def default_value(self, stmts, x, env, g):
+        stmts = [q for q in stmts if not self.droppable(q)]
+        if len(stmts) == 1 and isinstance(stmts[0], ast.Assign) and len(stmts[0].targets) == 1 and self.varname(stmts[0].targets[0]) == x:
+            return self.atom(self.expr(stmts[0].value, env, g)[0])
+        if len(stmts) == 1 and isinstance(stmts[0], ast.If) and stmts[0].orelse:
+            n0 = len(g.pre)
+            c, tc = self.expr(stmts[0].test, env, g)
+            if tc != "bool" or len(g.pre) != n0:
+                raise Abort(f"default of `{x}`: test `{ast.unparse(stmts[0].test)}`")
+            a = self.default_value(stmts[0].body, x, env, g)
+            b = self.default_value(stmts[0].orelse, x, env, g)
+            if len(g.pre) != n0:
+                raise Abort(f"default of `{x}` may raise")
+            return f"(if {c} then {a} else {b})"
+        raise Abort(f"default of `{x}` is not a (conditional) assignment to it")
+
+    def ifplain(self, s, rest, env, ctx, k, optvar=None):
+        if optvar is not None:
+            return self.ifopt(s, rest, env, ctx, k, optvar)
+        t = s.test
         g = Guards()
         c, tc = self.expr(t, env, g)
         if tc != "bool":
             raise Abort(f"condition `{ast.unparse(t)}` is not boolean ({tc})")
         env1 = self.after(env, g)
-        if self.has_signal(s.body) or self.has_signal(s.orelse):
+        signal = self.has_jump if self.spec.get("join_raise") else self.has_signal
+        if signal(s.body) or signal(s.orelse):
             a = self.block(list(s.body) + list(rest), dict(env1), ctx, k)
             b = self.block(list(s.orelse) + list(rest), dict(env1), ctx, k)
             return self.guard(g, f"if {c}\nthen\n{ind(a)}\nelse\n{ind(b)}")
@@ -927,8 +1153,8 @@ class Skel:
             finals.append(dict(env_b))
             return "tt"
         self.dry(lambda: (self.block(list(s.body), dict(env1), Ctx(None), rec), self.block(list(s.orelse), dict(env1), Ctx(None), rec)))
-        if len(finals) != 2:
-            raise Abort("internal: branch analysis")
+        if len(finals) > 2 or (len(finals) != 2 and not self.spec.get("join_raise")):
+            raise Abort("internal: branch analysis")          # (a branch that always raises contributes no final state)
         states = {n: ("bound" if all(f.get(n) == "bound" for f in finals) else "maybe") for n in names}
         plain = lambda eb: self.tuple_of(names, states, eb)
         a = self.dry(lambda: self.block(list(s.body), dict(env1), Ctx(None), plain))
@@ -952,6 +1178,36 @@ class Skel:
         body = (f"match (if {c}\n       then\n{ind(a, 9)}\n       else\n{ind(b, 9)}) with\n| None => None\n| Some {pat} =>\n"
                 + ind(self.block(rest, env2, ctx, k)) + "\nend")
         return self.guard(g, body)
+
+    def ifopt(self, s, rest, env, ctx, k, x):
+        """if x is None: A else: B   for an optional parameter x (A assigns x):  match v_x with None => A | Some v_x => B"""
+        if self.has_jump(s.body) or self.has_jump(s.orelse):
+            raise Abort(f"break / return under `if {x} is None`")
+        env_a = {k_: v_ for k_, v_ in env.items() if k_ != x}
+        env_b = dict(env)
+        env_b[x] = "bound"
+        names = sorted(set(self.assigned(s.body) + self.assigned(s.orelse)), key=lambda n: (n == W, n))
+        finals = []
+
+        def rec(eb):
+            finals.append(dict(eb))
+            return "tt"
+        self.dry(lambda: (self.block(list(s.body), dict(env_a), Ctx(None), rec), self.block(list(s.orelse), dict(env_b), Ctx(None), rec)))
+        if len(finals) > 2 or (len(finals) != 2 and not self.spec.get("join_raise")):
+            raise Abort("internal: branch analysis")          # (a branch that always raises contributes no final state)
+        states = {n: ("bound" if all(f.get(n) == "bound" for f in finals) else "maybe") for n in names}
+        if states.get(x) != "bound":
+            raise Abort(f"`{x}` is not assigned on the `{x} is None` path")
+        some = lambda eb: "Some " + self.atom(self.tuple_of(names, states, eb))
+        a = self.block(list(s.body), dict(env_a), Ctx(None), some)
+        b = self.block(list(s.orelse), dict(env_b), Ctx(None), some)
+        env2 = dict(env)
+        for n in names:
+            self.vtype(n)
+            env2[n] = states[n]
+        pat = self.pattern_of(names).lstrip("'")
+        return (f"match (match {cname(x)} with\n       | None =>\n{ind(a, 9)}\n       | Some {cname(x)} =>\n{ind(b, 9)}\n       end) with\n"
+                f"| None => None\n| Some {pat} =>\n" + ind(self.block(rest, env2, ctx, k)) + "\nend")
 
     def forstmt(self, s, env, cont):
         if s.orelse:
@@ -998,7 +1254,7 @@ class Skel:
         env_b[tv] = "bound"
 
         def ty(n, st):
-            t = self.vtype(n)
+            t = ctype(self.vtype(n))
             return t if st == "bound" else f"option {self.atom(t)}"
         st_type = " * ".join(self.atom(ty(n, states[n])) for n in carried) if carried else "unit"
         free_decl = "".join(f" ({cname(n)} : {ty(n, env0[n])})" for n in free)
@@ -1111,11 +1367,69 @@ def select_region(fn, start, end):
     return body[si[0]:ei[0] + 1]
 
 
+class _AnnToAssign(ast.NodeTransformer):
+    """`x: T = e` is `x = e` (annotations carry no run-time meaning)"""
+
+    def visit_AnnAssign(self, node):
+        if node.value is None:
+            return ast.Pass()
+        return ast.Assign(targets=[node.target], value=node.value)
+
+
+def read_enum(tree, name):
+    cls = [n for n in tree.body if isinstance(n, ast.ClassDef) and n.name == name]
+    if len(cls) != 1 or [dotted(b) for b in cls[0].bases] != ["Enum"] or cls[0].decorator_list:
+        raise Abort(f"enum `{name}` not found exactly once as a plain `class {name}(Enum)`")
+    members, values = [], []
+    for st in cls[0].body:
+        if isinstance(st, ast.Expr) and isinstance(st.value, ast.Constant) and isinstance(st.value.value, str):
+            continue
+        if isinstance(st, ast.Assign) and len(st.targets) == 1 and isinstance(st.targets[0], ast.Name) and isinstance(st.value, ast.Constant) \
+                and isinstance(st.value.value, int) and not isinstance(st.value.value, bool):
+            members.append(st.targets[0].id)
+            values.append(st.value.value)
+            continue
+        raise Abort(f"enum `{name}`: unsupported member definition `{ast.unparse(st)[:60]}`")
+    if not members or len(set(values)) != len(values):
+        raise Abort(f"enum `{name}`: members must have distinct integer values (equal values are aliases)")
+    return members
+
+
+def read_dataclass(tree, name):
+    cls = [n for n in tree.body if isinstance(n, ast.ClassDef) and n.name == name]
+    if len(cls) != 1 or cls[0].bases or [dotted(d) for d in cls[0].decorator_list] != ["dataclass"]:
+        raise Abort(f"dataclass `{name}` not found exactly once as a plain `@dataclass class {name}`")
+    fields = []
+    for st in cls[0].body:
+        if isinstance(st, ast.Expr) and isinstance(st.value, ast.Constant) and isinstance(st.value.value, str):
+            continue
+        if isinstance(st, ast.AnnAssign) and isinstance(st.target, ast.Name) and st.value is None and ast.unparse(st.annotation) == "int":
+            fields.append(st.target.id)
+            continue
+        raise Abort(f"dataclass `{name}`: unsupported member `{ast.unparse(st)[:60]}` (only `field: int` without default)")
+    if not fields:
+        raise Abort(f"dataclass `{name}` has no fields")
+    return fields
+
+
 def translate_function(spec, src_root):
     path = os.path.join(src_root, spec["file"])
     tree = ast.parse(open(path).read())
     fn = find_function(tree, spec["func"])
     region = select_region(fn, spec.get("start"), spec.get("end"))
+    if spec.get("annassign"):
+        region = [ast.fix_missing_locations(_AnnToAssign().visit(q)) for q in region]
+    if spec.get("check_signature"):
+        a = fn.args
+        if a.vararg or a.kwarg or a.kwonlyargs or a.posonlyargs:
+            raise Abort(f"signature of `{spec['func']}`: only plain positional parameters are supported")
+        have = [x.arg for x in a.args if x.arg != "self"]
+        want = [n for n, _ in spec.get("params", []) if n != W and not n.startswith("self.")]
+        if have != want:
+            raise Abort(f"signature of `{spec['func']}` is {have}, the unit expects {want}")
+        defaults = [ast.unparse(x) for x in a.defaults]
+        if defaults != spec.get("defaults", defaults):
+            raise Abort(f"parameter defaults of `{spec['func']}` are {defaults}, the unit expects {spec['defaults']}")
     sk = SkelD(spec, fn, region, None)
     env = {}
     for n, t in spec.get("params", []):
@@ -1137,7 +1451,7 @@ def translate_function(spec, src_root):
             params += f" (v_w : {sk.vtype(W)})"
         else:
             tt = spec["option_params"][n] if n in spec.get("option_params", {}) else t
-            params += f" ({cname(n)} : {tt})"
+            params += f" ({cname(n)} : {ctype(tt)})"
     out = []
     for l in sk.loops:
         out.append(l)
@@ -1151,6 +1465,24 @@ def translate_function(spec, src_root):
 
 def render_unit(unit, src_root):
     specs = unit["functions"]
+    decls = ""
+    enums, dcs = {}, {}
+    if unit.get("enums") or unit.get("dataclasses"):
+        tree0 = ast.parse(open(os.path.join(src_root, unit["decl_file"])).read())
+        for en in unit.get("enums", []):
+            ms = read_enum(tree0, en)
+            enums[en] = ms
+            decls += (f"(* class {en}(Enum) of {unit['decl_file']}: `==` on members is identity *)\n"
+                      f"Inductive {en} : Type := " + " | ".join(f"{en}_{m}" for m in ms) + ".\n"
+                      f"Definition {en}_eqb (a b : {en}) : bool :=\n  match a, b with\n"
+                      + "".join(f"  | {en}_{m}, {en}_{m} => true\n" for m in ms) + ("  | _, _ => false\n" if len(ms) > 1 else "") + "  end.\n\n")
+        for dc in unit.get("dataclasses", []):
+            fs = read_dataclass(tree0, dc)
+            dcs[dc] = fs
+            decls += (f"(* @dataclass class {dc} of {unit['decl_file']}: integer fields in source order *)\n"
+                      f"Record {dc} : Type := mk_{dc} {{ " + "; ".join(f"{dc}_{f} : Z" for f in fs) + " }.\n\n")
+        for spec in specs:
+            spec["_enums"], spec["_dataclasses"] = enums, dcs
     types = []
     consts = []
     kernels = []
@@ -1173,7 +1505,8 @@ def render_unit(unit, src_root):
         names += nm
     head = (f"(* GENERATED by tools/pyx2v_skel.py from {', '.join(sorted(set(s['file'] for s in specs)))} — DO NOT EDIT.\n"
             f"   Control-flow skeleton: numeric kernels are the Section variables k_*, Python variables are v_*, `None` = exception. *)\n"
-            "From Coq Require Import String List Arith Bool.\nFrom PV Require Import Model.W4SPrelude.\nImport ListNotations.\nLocal Open Scope nat_scope.\n\n"
+            "From Coq Require Import String List Arith Bool" + (" ZArith" if unit.get("zarith") else "") + ".\nFrom PV Require Import Model.W4SPrelude"
+            + "".join(" " + m for m in unit.get("prelude", [])) + ".\nImport ListNotations.\nLocal Open Scope nat_scope.\n\n" + decls +
             f"Section {unit['name']}.\n")
     if types:
         head += "Variables " + " ".join(types) + " : Type.\n"
@@ -1390,7 +1723,153 @@ CPAPR = {
     }],
 }
 
-SPECS = [SOLVER, HOSVD, CPALS, TUCKER, CPAPR]
+# ---- gcp/samplers.py::GCPSampler.__init__ + _prepare_function_sampler + _prepare_gradient_sampler (whole functions) --------------
+_SMP_COMMON = {
+    "file": "pyttb/gcp/samplers.py", "zarith": True, "annassign": True, "check_signature": True,
+    "types": ["T_Data", "T_Rate", "T_Idx", "T_Fl", "T_Sampler", "T_Crng"],
+    "callee_names": ["stratified", "uniform", "semistrat"],
+    "ceildiv": {"coq": "k_ceil_div", "type": "Z -> Z -> Z"},
+    "fdiv": {"coq": "k_fdiv", "type": "Z -> Z -> T_Fl", "ret": "T_Fl"},
+    "drop_calls": ["print", "logging.info", "warnings.warn"],
+}
+_SMP_OPAQUE = {
+    "isinstance(data, ttb.sptensor)": {"coq": "k_is_sptensor", "type": "T_Data -> bool", "ret": "bool"},
+    "int(np.prod(data.shape))": {"coq": "k_tensor_size", "type": "T_Data -> Z", "ret": "Z"},
+    "data.nnz": {"coq": "k_nnz", "type": "T_Data -> Z", "ret": "Z"},
+    "np.sort(tt_sub2ind(data.shape, data.subs))": {"coq": "k_sorted_nz_idx", "type": "T_Data -> T_Idx", "ret": "T_Idx"},
+    "np.array([], dtype=int)": {"coq": "k_empty_crng", "type": "T_Crng", "ret": "T_Crng"},
+}
+_SMP_KERNELS = {
+    "partial[stratified]/num_nonzeros,num_zeros,nz_idx,over_sample_rate":        # keyword arguments in alphabetical order
+        {"coq": "k_partial_stratified", "type": "Z -> Z -> T_Idx -> T_Rate -> T_Sampler", "ret": "T_Sampler"},
+    "partial[uniform]/samples": {"coq": "k_partial_uniform", "type": "sk_dyn StratifiedCount -> T_Sampler", "ret": "T_Sampler"},
+    "partial[semistrat]/num_nonzeros,num_zeros": {"coq": "k_partial_semistrat", "type": "Z -> Z -> T_Sampler", "ret": "T_Sampler"},
+    "np.arange": {"coq": "k_arange", "type": "Z -> T_Crng", "ret": "T_Crng"},
+}
+_SMP_LAMBDA = ("self._gsampler = lambda data: stratified(data=cast(ttb.sptensor, data), nz_idx=xnzidx, "
+               "num_nonzeros=np.random.poisson(exp_nonzeros), num_zeros=np.random.poisson(exp_zeros), over_sample_rate=over_sample_rate)")
+_SMP_VARS = {"data": "T_Data", "over_sample_rate": "T_Rate", "num_zeros": "Z", "num_nonzeros": "Z", "tensor_size": "Z", "max_iters": "Z",
+             "function_sampler": "Samplers", "gradient_sampler": "Samplers", "function_samples": "dyn StratifiedCount",
+             "gradient_samples": "dyn StratifiedCount", "ftmp": "Z", "gtmp": "Z", "xnzidx": "T_Idx", "exp_nonzeros": "T_Fl", "exp_zeros": "T_Fl",
+             "self._fsampler": "T_Sampler", "self._gsampler": "T_Sampler", "self._crng": "T_Crng"}
+SAMPLER = {
+    "name": "GenSampler", "zarith": True, "prelude": ["Model.W4SPreludeZ"], "decl_file": "pyttb/gcp/samplers.py",
+    "enums": ["Samplers"], "dataclasses": ["StratifiedCount"],
+    "functions": [
+        dict(_SMP_COMMON, name="prepare_function_sampler", func="GCPSampler._prepare_function_sampler",
+             params=[("data", "T_Data"), ("function_sampler", "Samplers"), ("num_zeros", "Z"), ("num_nonzeros", "Z"), ("over_sample_rate", "T_Rate"),
+                     ("function_samples", "dyn StratifiedCount")],
+             vars=_SMP_VARS, outputs=["self._fsampler"], kernels=_SMP_KERNELS, opaque_expr=_SMP_OPAQUE),
+        dict(_SMP_COMMON, name="prepare_gradient_sampler", func="GCPSampler._prepare_gradient_sampler",
+             params=[("self._crng", "T_Crng"), ("data", "T_Data"), ("gradient_sampler", "Samplers"), ("num_zeros", "Z"), ("num_nonzeros", "Z"),
+                     ("over_sample_rate", "T_Rate"), ("gradient_samples", "dyn StratifiedCount"), ("max_iters", "Z")],
+             vars=_SMP_VARS, outputs=["self._gsampler", "self._crng"], kernels=_SMP_KERNELS, opaque_expr=_SMP_OPAQUE,
+             opaque_stmt={_SMP_LAMBDA: {"coq": "k_poisson_sampler", "type": "T_Idx -> T_Fl -> T_Fl -> T_Rate -> T_Sampler",
+                                        "targets": ["self._gsampler"], "ignore": ["data"]}}),
+        dict(_SMP_COMMON, name="sampler_init", func="GCPSampler.__init__",
+             params=[("data", "T_Data"), ("function_sampler", "Samplers"), ("function_samples", "dyn StratifiedCount"),
+                     ("gradient_sampler", "Samplers"), ("gradient_samples", "dyn StratifiedCount"), ("max_iters", "Z"), ("over_sample_rate", "T_Rate")],
+             defaults=["None", "None", "None", "None", "1000", "1.1"],
+             option_params={"function_sampler": "option Samplers", "gradient_sampler": "option Samplers"},
+             vars=_SMP_VARS, outputs=["self._fsampler", "self._gsampler", "self._crng"], opaque_expr=_SMP_OPAQUE,
+             kernels={
+                 "self._prepare_function_sampler": {"generated": "prepare_function_sampler", "targets": ["self._fsampler"]},
+                 "self._prepare_gradient_sampler": {"generated": "prepare_gradient_sampler", "targets": ["self._gsampler", "self._crng"],
+                                                    "extra": ["self._crng"]},
+             }),
+    ],
+}
+
+# ---- hosvd.py::hosvd, the WHOLE function (argument checks, threshold, mode loop, final core, result) ------------------------------
+HOSVDFULL = {
+    "name": "GenHosvdFull",
+    "functions": [{
+        "name": "hosvd_full", "file": "pyttb/hosvd.py", "func": "hosvd", "check_signature": True, "join_raise": True,
+        "defaults": ["1", "None", "True", "None"],
+        "types": ["T_V", "T_X", "T_Tensor", "T_Mat", "T_TT"],
+        "consts": [("c_leV", "T_V -> T_V -> bool"), ("c_zeroV", "T_V"), ("c_addV", "T_V -> T_V -> T_V"), ("c_emptyMat", "T_Mat")],
+        "ordered": {"T_V": "c_leV"},
+        "ring": {"T_V": ("c_zeroV", "c_addV")},
+        "params": [("input_tensor", "T_X"), ("tol", "T_V"), ("verbosity", "T_V"), ("dimorder", "list nat"), ("sequential", "bool"),
+                   ("ranks", "list nat")],
+        "option_params": {"dimorder": "option (list nat)", "ranks": "option (list nat)"},
+        "vars": {"d": "nat", "normxsqr": "T_V", "eigsumthresh": "T_V", "factor_matrices": "list T_Mat", "Y": "T_Tensor", "G": "T_Tensor",
+                 "result": "T_TT", "k": "nat", "Yk": "T_Mat", "Z": "T_Mat", "D": "list T_V", "V": "T_Mat", "pi": "list nat",
+                 "eigvec": "list T_V", "eigsum": "list T_V"},
+        "drop_vars": ["print_msg", "diffnormsqr", "relnorm"],
+        "kernels": {
+            "scipy.linalg.eigh": {"coq": "k_eigh", "type": "T_Mat -> list T_V * T_Mat"},
+        },
+        "opaque_expr": {
+            "input_tensor.ndims": {"coq": "k_ndims", "type": "T_X -> nat", "ret": "nat"},
+            "np.zeros((d,), dtype=int)": {"template": "(repeat 0 {d})", "uses": [], "ret": "list nat"},
+            "parse_one_d(ranks).copy()": {"template": "{ranks}", "uses": [], "ret": "list nat"},          # trusted: a sequence of ints as a list
+            "np.arange(d)": {"template": "(seq 0 {d})", "uses": [], "ret": "list nat"},
+            "parse_one_d(dimorder)": {"template": "{dimorder}", "uses": [], "ret": "list nat"},
+            "tuple(range(d)) != tuple(sorted(dimorder))": {"coq": "k_not_permutation", "type": "nat -> list nat -> bool", "ret": "bool"},
+            "float(np.sum(input_tensor.double().flatten(input_tensor.order) ** 2))": {"coq": "k_normsqr", "type": "T_X -> T_V", "ret": "T_V"},
+            "tol ** 2 * normxsqr / d": {"coq": "k_thresh", "type": "T_V -> T_V -> nat -> T_V", "ret": "T_V"},
+            "[np.empty(1)] * d": {"template": "(repeat c_emptyMat {d})", "uses": [], "ret": "list T_Mat"},
+            "ttb.tensor(input_tensor.double(), copy=False)": {"coq": "k_as_tensor", "type": "T_X -> T_Tensor", "ret": "T_Tensor"},
+            "Y.to_tenmat(np.array([k])).double()": {"coq": "k_unfold", "type": "T_Tensor -> nat -> T_Mat", "ret": "T_Mat"},
+            "np.dot(Yk, Yk.transpose())": {"coq": "k_gram", "type": "T_Mat -> T_Mat", "ret": "T_Mat"},
+            "np.argsort(-D, kind='quicksort')": {"coq": "k_argsort_desc", "type": "list T_V -> list nat", "ret": "list nat"},
+            "D[pi]": {"coq": "k_take", "type": "list T_V -> list nat -> list T_V", "ret": "list T_V"},
+            "Y.ttm(factor_matrices, transpose=True)": {"coq": "k_ttm_all_t", "type": "T_Tensor -> list T_Mat -> T_Tensor", "ret": "T_Tensor"},
+            "ttb.ttensor(G, factor_matrices, copy=False)": {"coq": "k_ttensor", "type": "T_Tensor -> list T_Mat -> T_TT", "ret": "T_TT"},
+        },
+        "opaque_stmt": {
+            "Y = Y.ttm(factor_matrices[k].transpose(), int(k))": {"coq": "k_shrink", "type": "T_Tensor -> list T_Mat -> nat -> T_Tensor", "targets": ["Y"]},
+        },
+        "colsel": {"T_Mat": {"coq": "k_select_cols", "type": "T_Mat -> list nat -> T_Mat", "ret": "T_Mat"}},
+    }],
+}
+
+# ---- cp_als.py::cp_als, the PROLOGUE: argument checks, defaults, dispatch on the initial guess (region before GenCpAls's) ---------
+_CPPRE_APPEND_RANDOM = "factor_matrices.append(np.random.uniform(0, 1, (input_tensor.shape[n], rank)))"
+CPALSPRE = {
+    "name": "GenCpAlsPre",
+    "functions": [{
+        "name": "cp_als_prologue", "file": "pyttb/cp_als.py", "func": "cp_als", "start": "N = input_tensor.ndims", "end": "if isinstance(init, ttb.ktensor):",
+        "check_signature": True, "join_raise": True,
+        "defaults": ["0.0001", "1000", "None", "None", "'random'", "1", "True"],
+        "types": ["T_W", "T_F", "T_Mat", "T_Init", "T_X"],
+        "params": [("$w", "T_W"), ("input_tensor", "T_X"), ("rank", "nat"), ("stoptol", "T_F"), ("maxiters", "nat"), ("dimorder", "list nat"),
+                   ("optdims", "list nat"), ("init", "T_Init"), ("printitn", "nat"), ("fixsigns", "bool")],
+        "option_params": {"dimorder": "option (list nat)", "optdims": "option (list nat)"},
+        "vars": {"N": "nat", "normX": "T_F", "n": "nat", "factor_matrices": "list T_Mat"},
+        "outputs": ["N", "normX", "dimorder", "optdims", "init"],
+        "kernels": {
+            "input_tensor.norm": {"coq": "k_norm", "type": "T_X -> T_F", "recv": True, "ret": "T_F"},
+            "ttb.ktensor": {"coq": "k_ktensor_of_factors", "type": "list T_Mat -> T_Init", "ret": "T_Init"},
+            "input_tensor.nvecs": {"coq": "k_nvecs", "type": "T_X -> nat -> nat -> T_Mat", "recv": True, "ret": "T_Mat"},
+        },
+        "opaque_expr": {
+            "input_tensor.ndims": {"coq": "k_ndims", "type": "T_X -> nat", "ret": "nat"},
+            "np.arange(N)": {"template": "(seq 0 {N})", "uses": [], "ret": "list nat"},
+            "parse_one_d(dimorder)": {"template": "{dimorder}", "uses": [], "ret": "list nat"},          # trusted: a sequence of ints as a list
+            "parse_one_d(optdims)": {"template": "{optdims}", "uses": [], "ret": "list nat"},
+            "tuple(range(N)) != tuple(sorted(dimorder))": {"coq": "k_not_permutation", "type": "nat -> list nat -> bool", "ret": "bool"},
+            "not np.all(np.isin(optdims, np.arange(N))) or np.unique(optdims).size != optdims.size":
+                {"coq": "k_optdims_invalid", "type": "list nat -> nat -> bool", "ret": "bool"},
+            "isinstance(init, ttb.ktensor)": {"coq": "k_init_is_ktensor", "type": "T_Init -> bool", "ret": "bool"},
+            "init.ndims": {"coq": "k_init_ndims", "type": "T_Init -> nat", "ret": "nat"},
+            "init.ncomponents": {"coq": "k_init_ncomponents", "type": "T_Init -> nat", "ret": "nat"},
+            "init.factor_matrices[n].shape != (input_tensor.shape[n], rank)":
+                {"coq": "k_init_factor_misshaped", "type": "T_Init -> nat -> T_X -> nat -> bool", "ret": "bool"},
+            "isinstance(init, str)": {"coq": "k_init_is_str", "type": "T_Init -> bool", "ret": "bool"},
+            "init.lower() == 'random'": {"coq": "k_init_names_random", "type": "T_Init -> bool", "ret": "bool"},
+            "init.lower() == 'nvecs'": {"coq": "k_init_names_nvecs", "type": "T_Init -> bool", "ret": "bool"},
+            "isinstance(input_tensor, ttb.sumtensor)": {"coq": "k_is_sumtensor", "type": "T_X -> bool", "ret": "bool"},
+        },
+        "opaque_stmt": {
+            _CPPRE_APPEND_RANDOM: {"coq": "k_append_random_factor", "type": "T_W -> list T_Mat -> T_X -> nat -> nat -> T_W * list T_Mat",
+                                   "targets": ["factor_matrices"], "effect": True},
+        },
+    }],
+}
+
+SPECS = [SOLVER, HOSVD, CPALS, TUCKER, CPAPR, SAMPLER, HOSVDFULL, CPALSPRE]
 
 
 def main(argv):
